@@ -44,6 +44,10 @@ PAIRS = [(f, p) for p in PLACES for f in FORMATS]
 XFORMATS = [">H", ">q", "<I", "!i", ">B", "<Q"]
 
 KF_REDECL = "C08-redeclared-name-allocated-twice"
+MAPNAMES = ["amap", "bmap"]
+# programs with two maps of the same class (two ArrayMaps, two
+# PerCPUArrayMaps) are part of the enumeration
+SAME_KIND = True
 HDR = 16        # packet bytes before the in/out areas (XDP needs >= 14)
 
 
@@ -112,55 +116,80 @@ def layouts_with_prefix(k, prefix, pairs=None):
 
 
 class Slot:
-    __slots__ = ("owner", "oname", "name", "fmt", "place", "size", "pos")
+    __slots__ = ("owner", "oname", "name", "fmt", "place", "size", "pos",
+                 "mi")
 
     def __init__(self, owner, oname, name, fmt, place):
         self.owner, self.oname, self.name = owner, oname, name
         self.fmt, self.place = fmt, place
         self.size = fsize(fmt)
         self.pos = None
+        self.mi = 0         # index of the map the variable is declared in
 
 
 class Case:
     """the real classes and program for one declaration set"""
 
     def __init__(self, layout, percpu=False, map_in_base=True,
-                 map_in_derived=True):
+                 map_in_derived=True, kinds=None, assign=None):
+        """kinds: the array-type maps of the program in declaration order
+        ("array" / "percpu"; default: one map); assign: for every
+        declaration of `layout` the index of the map it is declared in"""
         self.layout = layout
-        M = self.M = PerCPUArrayMap() if percpu else ArrayMap()
+        if kinds is None:
+            kinds = ("percpu" if percpu else "array",)
+        if assign is None:
+            assign = (0,) * len(layout)
+        self.kinds, self.assign = tuple(kinds), tuple(assign)
+        self.maps = [PerCPUArrayMap() if k == "percpu" else ArrayMap()
+                     for k in self.kinds]
+        self.mapnames = MAPNAMES[:len(self.maps)]
+        self.M = self.maps[0]
         battrs, dattrs, aattrs, tattrs = {}, {}, {}, {}
-        if map_in_base:
-            battrs["amap"] = M
-        if map_in_derived:
-            dattrs["amap"] = M
+        # the class dictionary's order is the order in which EBPF.__init__
+        # initialises the maps
+        for mname, M in zip(self.mapnames, self.maps):
+            if map_in_base:
+                battrs[mname] = M
+            if map_in_derived:
+                dattrs[mname] = M
         bnames, main, suba, subb = [], {}, [], []
         self.shadowed = {}        # name -> format of the shadowed base decl
-        for f, p in layout:
+        self.mapof = {}           # (place group, name) -> map index
+        self.shadowed_map = {}    # name -> map of the shadowed base decl
+        for (f, p), a in zip(layout, self.assign):
             if p == "base":
                 n = f"b{len(bnames)}"
                 bnames.append(n)
-                battrs[n] = M.globalVar(f)
+                battrs[n] = self.maps[a].globalVar(f)
                 main[n] = (f, "base")
+                self.mapof["e", n] = a
         nre = 0
-        for f, p in layout:
+        for (f, p), a in zip(layout, self.assign):
+            M = self.maps[a]
             if p == "derived":
                 n = f"d{sum(k[0] == 'd' for k in dattrs)}"
                 dattrs[n] = M.globalVar(f)
                 main[n] = (f, "derived")
+                self.mapof["e", n] = a
             elif p == "redecl":
                 n = bnames[nre]
                 nre += 1
                 self.shadowed[n] = main[n][0]
+                self.shadowed_map[n] = self.mapof["e", n]
                 dattrs[n] = M.globalVar(f)
                 main[n] = (f, "redecl")
+                self.mapof["e", n] = a
             elif p == "subA":
                 n = f"s{len(suba)}"
                 suba.append((n, f))
                 aattrs[n] = M.globalVar(f)
+                self.mapof["a", n] = a
             elif p == "subB":
                 n = f"t{len(subb)}"
                 subb.append((n, f))
                 tattrs[n] = M.globalVar(f)
+                self.mapof["b", n] = a
         self.Base = type("Base", (EBPF,), battrs)
         subs = []
         self.subs = {}
@@ -189,6 +218,7 @@ class Case:
         self.off = {}
         for o, n, f, p in plan:
             s = Slot(owners[o], o, n, f, p)
+            s.mi = self.mapof[o[0], n]
             self.slots.append(s)
             self.off[(o, n)] = off
             off += (s.size + 7) // 8 * 8
@@ -622,6 +652,443 @@ def run_percpu(layout, seed, backend, n_possible, n_online, schedule,
     return ("ok" if not (sink and sink.n) else "violated"), obs
 
 
+# ------------------------------------------------------- several maps at once
+KINDS_MIXED = [("array", "percpu"), ("percpu", "array")]
+KINDS_SAME = [("array", "array"), ("percpu", "percpu")]
+KF_SAMEKIND = "C08-two-maps-of-one-kind-share-base-register"
+KF_OTHERMAP = "C08-name-redeclared-in-other-map-offset-clobbered"
+# formats of the three-declaration family over two maps
+TRI_FORMATS_QUICK = ["B", "Q", "3B"]
+TRI_FORMATS = ["B", "H", "Q", "x", "3B", "5I", "64I"]
+SAME_FORMATS = ["B", "I", "x", "3B"]
+
+
+def py_view(case, mi):
+    """the bytes of map `mi` as Python sees them (per-CPU: after read())"""
+    obj = case.e.__dict__[case.mapnames[mi]]
+    if case.kinds[mi] == "array":
+        return bytes(obj[:case.maps[mi].size])
+    obj.read()
+    return bytes(obj.data)
+
+
+def observe_multi(layout, assign, kinds, seed, backend, n_possible, n_online,
+                  schedule):
+    """one declaration set distributed over the maps `kinds` of one program.
+    In every step Python writes a value vector into the variables of the
+    plain array maps and reads it back, the program (run on the CPU the
+    schedule names) copies every variable of every map to the packet and
+    then the packet to every variable, Python reads every variable (per-CPU
+    ones for every CPU) and the complete bytes of every map.
+    -> (status, observations, interpreter steps, problems seen by the
+    simulated kernel only)"""
+    obs, steps, simprobs = [], 0, []
+    sk = simkernel.SimKernel(n_possible=n_possible, n_online=n_online) \
+        if backend == "sim" else None
+    ctx = sk.installed() if sk else real_kernel()
+    aff = None
+    try:
+        with ctx:
+            try:
+                case = Case(layout, kinds=kinds, assign=assign)
+                case.read_positions()
+                case.emit()
+                case.e.load()
+            except Exception as ex:
+                if isinstance(ex, simkernel.SimTrap):
+                    raise
+                return "rejected:" + type(ex).__name__, obs, steps, simprobs
+            e = case.e
+            used = [mi for mi in range(len(kinds))
+                    if any(s.mi == mi for s in case.slots)]
+            # a map without variables is not created (size 0)
+            vsizes = [case.maps[mi].size for mi in range(len(kinds))]
+            made = [mi for mi in range(len(kinds)) if vsizes[mi]]
+            if sk:
+                # a map all of whose declarations are shadowed by
+                # re-declarations in the other map may or may not exist
+                want = [(BPF_ARRAY if kinds[mi] == "array" else BPF_PERCPU,
+                         case.maps[mi].size if mi in used else None)
+                        for mi in range(len(kinds))
+                        if mi in used or mi in case.assign]
+                have = [(m.type, m.value_size)
+                        for m in sk.kernel.maps.values()]
+                rest = list(have)
+                for typ, size in want:
+                    if rest and rest[0][0] == typ and \
+                            size in (None, rest[0][1]):
+                        rest.pop(0)
+                    elif size is not None:
+                        rest.append(None)
+                        break
+                if rest:
+                    simprobs.append(("no-map", [w for w in want if w[1]],
+                                     have))
+                    return "violated", obs, steps, simprobs
+            else:
+                aff = os.sched_getaffinity(0)
+            obs.append(("maps", vsizes))
+            case.read_positions()
+            obs.append(("positions", [(s.oname, s.name, s.fmt, s.place,
+                                       s.mi, s.pos) for s in case.slots]))
+            if layout_problems(obs[-1][1], vsizes):
+                # the values are not looked at: the layout is the violation
+                if is_other_map_redecl_defect(case):
+                    simprobs.append(("kf", KF_OTHERMAP, None))
+                return "ok", obs, steps, simprobs
+            run = list(schedule) + ([schedule[0]] if seed else [])
+            lens = {}
+            for t, cpu in enumerate(run):
+                for i, s in enumerate(case.slots):
+                    if kinds[s.mi] != "array":
+                        continue
+                    v, raw = py_value(s.fmt, i, t, seed)
+                    try:
+                        setattr(s.owner, s.name, v)
+                    except Exception as ex:
+                        obs.append(("pyset-exc", t, i, type(ex).__name__))
+                back = []
+                for i, s in enumerate(case.slots):
+                    if kinds[s.mi] != "array":
+                        back.append(None)
+                        continue
+                    try:
+                        back.append(getattr(s.owner, s.name))
+                    except Exception as ex:
+                        back.append(type(ex).__name__)
+                obs.append(("pyback", t, back))
+                invals = [multi_inval(s.fmt, i, t, seed)
+                          for i, s in enumerate(case.slots)]
+                pkt = case.packet(invals)
+                if sk:
+                    try:
+                        ret, vm = sk.run_prog(e.file_descriptor, pkt, cpu=cpu)
+                    except simkernel.SimTrap as trap:
+                        obs.append(("trap", t, cpu, str(trap)))
+                        break
+                    out = pkt
+                    steps += vm.steps
+                else:
+                    os.sched_setaffinity(0, {cpu})
+                    ret, out = kern.test_run(e.file_descriptor, pkt)
+                obs.append(("run", t, cpu, ret, case.outs(out)))
+                views = []
+                try:
+                    for mi in range(len(kinds)):
+                        views.append(py_view(case, mi) if mi in made else b"")
+                except Exception as ex:
+                    obs.append(("read-exc", t, len(views),
+                                f"{type(ex).__name__}: {ex}"))
+                    break
+                got = []
+                for i, s in enumerate(case.slots):
+                    try:
+                        var = getattr(s.owner, s.name)
+                        if kinds[s.mi] == "array":
+                            got.append(var)
+                            continue
+                        lens[s.mi] = len(var)
+                        row = []
+                        for c in range(len(var)):
+                            try:
+                                row.append(var[c])
+                            except Exception as ex:
+                                row.append(type(ex).__name__)
+                        got.append(row)
+                    except Exception as ex:
+                        got.append(type(ex).__name__)
+                obs.append(("pyread", t, got))
+                obs.append(("image", t, views))
+            obs.append(("len", sorted(lens.items())))
+            for mi in made:
+                m = e.__dict__.get(case.mapnames[mi])
+                if hasattr(m, "close"):
+                    m.close()
+            del case, e
+    finally:
+        if aff is not None:
+            os.sched_setaffinity(0, aff)
+        if sk:
+            sk.close_all()
+    return "ok", obs, steps, simprobs
+
+
+BPF_ARRAY, BPF_PERCPU = 2, 6
+
+
+def multi_inval(fmt, i, t, seed):
+    """packet bytes the program stores into slot i in step t"""
+    return pattern(fmt, i, t + 1, seed + 1)
+
+
+def layout_problems(slots, vsizes):
+    """per map: positions pairwise disjoint and inside the map"""
+    probs = []
+    for mi, vs in enumerate(vsizes):
+        iv = []
+        for o, n, f, p, m, pos in slots:
+            if m != mi:
+                continue
+            size = fsize(f)
+            if not isinstance(pos, int):
+                probs.append(f"{o}.{n}: no position")
+                continue
+            if pos < 0 or pos + size > vs:
+                probs.append(f"{o}.{n} [{pos},{pos + size}) outside map "
+                             f"{mi} of {vs} bytes")
+            iv.append((pos, pos + size, f"{o}.{n}"))
+        iv.sort()
+        for (a0, a1, an), (b0, b1, bn) in itertools.combinations(iv, 2):
+            if b0 < a1 and a0 < b1:
+                probs.append(f"map {mi}: {an} [{a0},{a1}) overlaps "
+                             f"{bn} [{b0},{b1})")
+    return probs
+
+
+def judge_multi(obs, kinds, n_possible, n_online, seed, alias=None):
+    """Reference: every map is an array of bytes (per-CPU maps: one per
+    possible CPU), all zero at first; every variable is the bytes
+    [pos, pos + size) of its own map, the positions (pairwise disjoint,
+    checked first) being the ones the library chose.  Python and the program
+    read and write exactly those bytes; nothing else ever changes.
+
+    `alias` (a defect model, never the specification): {map index: index of
+    the map whose value pointer the program uses instead}; Python still
+    accesses the real map.
+    -> list of (kind, expected, observed, note)"""
+    out = []
+    if not obs or obs[0][0] != "maps":
+        raise core.Internal("C08: observations without maps")
+    vsizes = obs[0][1]
+    slots = obs[1][1]
+    probs = layout_problems(slots, vsizes)
+    if probs:
+        return [("layout", "positions pairwise disjoint and inside their "
+                 f"map (value sizes {vsizes})", probs[:4], "layout")]
+    tgt = [mi if alias is None else alias.get(mi, mi)
+           for mi in range(len(kinds))]
+    imgs = [bytearray(vs) if kinds[mi] == "array"
+            else [bytearray(vs) for _ in range(n_possible)]
+            for mi, vs in enumerate(vsizes)]
+
+    def region(mi, cpu):
+        return imgs[mi] if kinds[mi] == "array" else imgs[mi][cpu]
+
+    def name(i):
+        o, n, f, p, m, pos = slots[i]
+        return f"{o}.{n} ({f}, {p}, map {m} {kinds[m]})"
+
+    oob = [i for i, (o, n, f, p, m, pos) in enumerate(slots)
+           if pos + fsize(f) > vsizes[tgt[m]]]
+    seen_len = False
+    for ent in obs[2:]:
+        tag, t = ent[0], ent[1]
+        if tag == "pyset-exc":
+            out.append(("python-write", "Python write accepted", ent[3],
+                        f"{name(ent[2])}, vector {t}"))
+        elif tag == "pyback":
+            for i, (o, n, f, p, m, pos) in enumerate(slots):
+                if kinds[m] == "array":
+                    raw = py_value(f, i, t, seed)[1]
+                    imgs[m][pos:pos + len(raw)] = raw
+            for i, (o, n, f, p, m, pos) in enumerate(slots):
+                if kinds[m] != "array":
+                    continue
+                exp = decode(f, bytes(imgs[m][pos:pos + fsize(f)]))
+                if not same(f, ent[2][i], exp):
+                    out.append(("py-py", exp, ent[2][i],
+                                f"{name(i)}: Python read after all Python "
+                                f"writes, vector {t}"))
+        elif tag == "trap":
+            if not oob:
+                out.append(("trap", "the program runs", ent[3],
+                            f"step {t} on CPU {ent[2]}"))
+            return out
+        elif tag == "run":
+            _, _, cpu, ret, outs = ent
+            if oob:
+                out.append(("no-trap", "out-of-bounds access", ret, ""))
+                return out
+            if ret != 2:
+                out.append(("retval", 2, ret, f"step {t} on CPU {cpu}"))
+                return out
+            for i, (o, n, f, p, m, pos) in enumerate(slots):
+                exp = bytes(region(tgt[m], cpu)[pos:pos + fsize(f)])
+                if outs[i] != exp:
+                    what = "the value written by Python" \
+                        if kinds[m] == "array" else \
+                        f"what was last stored on CPU {cpu}"
+                    out.append(("program-read", exp, outs[i],
+                                f"{name(i)}: program read of {what}, "
+                                f"step {t}"))
+            for i, (o, n, f, p, m, pos) in enumerate(slots):
+                raw = multi_inval(f, i, t, seed)
+                region(tgt[m], cpu)[pos:pos + len(raw)] = raw
+        elif tag == "read-exc":
+            out.append(("map-read", "the map can be read from Python",
+                        ent[3], f"map {ent[2]} {kinds[ent[2]]}, step {t}"))
+            return out
+        elif tag == "pyread":
+            for i, (o, n, f, p, m, pos) in enumerate(slots):
+                got = ent[2][i]
+                if kinds[m] == "array":
+                    exp = decode(f, bytes(imgs[m][pos:pos + fsize(f)]))
+                    if not same(f, got, exp):
+                        out.append(("program-to-py", exp, got,
+                                    f"{name(i)}: Python read after the "
+                                    f"program stored, step {t}"))
+                    continue
+                if not isinstance(got, list):
+                    out.append(("percpu-py-read", "a sequence", got, name(i)))
+                    continue
+                for c in range(min(len(got), n_possible)):
+                    exp = decode(f, bytes(imgs[m][c][pos:pos + fsize(f)]))
+                    if not same(f, got[c], exp):
+                        out.append(("percpu-py-read", exp, got[c],
+                                    f"{name(i)}[{c}] after step {t}"))
+        elif tag == "image":
+            for mi, view in enumerate(ent[2]):
+                vs = vsizes[mi]
+                if not vs:
+                    continue
+                if kinds[mi] == "array":
+                    exp = bytes(imgs[mi])
+                    if view != exp:
+                        out.append(("map-bytes", exp, view,
+                                    f"all bytes of map {mi} (array) after "
+                                    f"step {t}: {diff_at(exp, view)}"))
+                    continue
+                for c in range(min(len(view) // vs, n_possible)):
+                    exp = bytes(imgs[mi][c])
+                    got = view[c * vs:(c + 1) * vs]
+                    if got != exp:
+                        out.append(("map-bytes", exp, got,
+                                    f"all bytes of map {mi} (per-CPU) for "
+                                    f"CPU {c} after step {t}: "
+                                    f"{diff_at(exp, got)}"))
+        elif tag == "len":
+            seen_len = True
+            for mi, n in ent[1]:
+                if n not in (n_online, n_possible):
+                    out.append(("percpu-len", [n_online, n_possible], n,
+                                "len() of a per-CPU variable is neither the "
+                                "online nor the possible number of CPUs"))
+        else:
+            raise core.Internal(f"C08: unknown observation {tag}")
+    if not seen_len:
+        raise core.Internal("C08: observations end early")
+    return out
+
+
+def diff_at(exp, got):
+    d = [i for i, (a, b) in enumerate(zip(exp, got)) if a != b]
+    if len(exp) != len(got):
+        return f"lengths {len(exp)} / {len(got)}"
+    return f"bytes {d[:8]} differ"
+
+
+def model_shadowed_in_other_map(case):
+    """defect model for KF_OTHERMAP: a map's collect() skips a base-class
+    declaration only if the declaration shadowing it is in the same map, so
+    the map a shadowed declaration belonged to still allocates it and
+    stores its offset under the name - over the offset of the live
+    variable if that map is initialised later.
+    -> predicted positions per slot"""
+    pos = {}
+    progs = [("e", case.e)] + list(case.subs.items())
+    for M in case.maps:
+        coll = []
+        for oname, prog in progs:
+            unique = set()
+            for cls in type(prog).__mro__:
+                for k, v in cls.__dict__.items():
+                    if getattr(v, "map", None) is M and hasattr(v, "fmt") \
+                            and k not in unique:
+                        coll.append((fsize(v.fmt), oname, k))
+                        unique.add(k)
+        coll.sort(key=lambda t: -t[0])
+        at = 0
+        for size, oname, k in coll:
+            pos[(oname, k)] = at
+            at += size
+    return pos
+
+
+def is_other_map_redecl_defect(case):
+    """a base-class name is re-declared in another map than the one of the
+    shadowed declaration and the positions are those of the model"""
+    if not any(s.place == "redecl" and case.shadowed_map[s.name] != s.mi
+               for s in case.slots):
+        return False
+    pred = model_shadowed_in_other_map(case)
+    return all(pred.get((s.oname, s.name)) == s.pos for s in case.slots)
+
+
+def same_kind_alias(kinds):
+    """defect model for KF_SAMEKIND: maps of one class share the class's
+    base register, which holds the value pointer of the map initialised
+    last; the program reaches the variables of every map of that class
+    through it"""
+    last = {k: mi for mi, k in enumerate(kinds)}
+    alias = {mi: last[k] for mi, k in enumerate(kinds) if last[k] != mi}
+    return alias
+
+
+def run_multi(layout, assign, kinds, seed, backend, n_possible, n_online,
+              schedule, res=None):
+    cj = dict(kind="multi", layout=[list(p) for p in layout],
+              assign=list(assign), kinds=list(kinds), n_possible=n_possible,
+              n_online=n_online, schedule=list(schedule))
+    st, obs, steps, simprobs = observe_multi(
+        layout, assign, kinds, seed, backend, n_possible, n_online, schedule)
+    if res is None or st.startswith("rejected"):
+        return st, obs
+    res.count("transitions", steps)
+    sink = Sink(res)
+    kf = None
+    for kind, want, have in simprobs:
+        if kind == "kf":
+            kf = want
+            continue
+        sink.add(cj, want, have, kind, note="maps created in the kernel "
+                 "(type, value size) in declaration order")
+    if sink.n:
+        return "violated", obs
+    viol = judge_multi(obs, kinds, n_possible, n_online, seed)
+    if viol:
+        alias = same_kind_alias(kinds)
+        if not kf and alias and viol[0][0] != "layout" and \
+                not judge_multi(obs, kinds, n_possible, n_online, seed,
+                                alias):
+            kf = KF_SAMEKIND
+        for kind, exp, got, note in viol[:6]:
+            sink.add(cj, exp, got, kind, kf=kf, note=note or kind)
+        res.count("violating_cases")
+    if len(layout) == 3 and len({p for _, p in layout}) == 3:
+        res.sample(dict(cj, positions=obs[1][1], map_sizes=obs[0][1]),
+                   limit=4)
+    return ("violated" if viol else "ok"), obs
+
+
+def assignments(layout, nmaps=2):
+    """the ways of distributing the declarations over the maps such that
+    every map gets one; declarations that are equal are interchangeable"""
+    seen, out = set(), []
+    for a in itertools.product(range(nmaps), repeat=len(layout)):
+        if len(set(a)) != nmaps:
+            continue
+        key = tuple(sorted(zip(layout, a)))
+        if key not in seen:
+            seen.add(key)
+            out.append(a)
+    return out
+
+
+def multi_family(pairs, k):
+    return [(lay, a) for lay in layouts_with_prefix(k, (), pairs)
+            for a in assignments(lay)]
+
+
 # ------------------------------------------------------------------ driver
 def percpu_configs(ctx):
     n = os.cpu_count() or 1
@@ -641,7 +1108,7 @@ def percpu_configs(ctx):
 
 def work(item, res):
     kind, k, prefix, seed, kern_every, extra = item
-    for n, layout in enumerate(extra if kind == "arrayx"
+    for n, layout in enumerate(extra if kind in ("arrayx", "multi")
                                else layouts_with_prefix(k, prefix)):
         if kind in ("array", "arrayx"):
             res.count("evaluations")
@@ -660,6 +1127,8 @@ def work(item, res):
                     raise core.Internal(
                         "simulated and real kernel disagree on array layout "
                         f"{layout}: {first_diff(obs, obs2)}")
+        elif kind == "multi":
+            work_multi(layout, seed, kern_every, res)
         else:
             for npos, non, scheds in extra:
                 for sched in scheds:
@@ -685,6 +1154,39 @@ def work(item, res):
                                 f"{first_diff(obs, obs2)}")
 
 
+def work_multi(item, seed, kern_every, res):
+    layout, assign, kinds_list, configs = item
+    for kinds in kinds_list:
+        mixed = len(set(kinds)) == len(kinds)
+        for npos, non, scheds in configs:
+            for sched in scheds:
+                res.count("evaluations")
+                res.count("evaluations_several_maps" if mixed
+                          else "evaluations_maps_of_one_kind")
+                st, obs = run_multi(layout, assign, kinds, seed, "sim",
+                                    npos, non, sched, res)
+                res.outcomes.add(("multi-" if mixed else "onekind-") + st)
+                if st.startswith("rejected"):
+                    res.count("rejected_by_generator")
+                    continue
+                res.count("traces_validated_against_impl")
+                res.nontrivial.add(core.digest(
+                    ["multi", layout, assign, kinds, npos]))
+                if st == "ok" and kern_every and kern.available() and \
+                        npos == non == simkernel.possible_cpus() and \
+                        int(core.digest([layout, assign, kinds], 8), 16) \
+                        % kern_every == 0:
+                    st2, obs2 = run_multi(layout, assign, kinds, seed,
+                                          "real", npos, non, sched)
+                    res.count("kernel_validated")
+                    res.count("kernel_validated_several_maps")
+                    if (st2, obs2) != (st, obs):
+                        raise core.Internal(
+                            "simulated and real kernel disagree on "
+                            f"{layout} over maps {kinds} {assign} schedule "
+                            f"{sched}: {first_diff(obs, obs2)}")
+
+
 def first_diff(a, b):
     for x, y in zip(a, b):
         if x != y:
@@ -698,6 +1200,53 @@ def prefixes(k):
     if k == 2:
         return [(i,) for i in range(len(PAIRS))]
     return [(i, j) for i in range(len(PAIRS)) for j in range(i, len(PAIRS))]
+
+
+def multi_items(ctx, pc):
+    """programs with two array-type maps"""
+    n = os.cpu_count() or 1
+    main = [(n, n, [(0, n - 1, 0)])]
+    others = [c for c in pc if c[:2] != (n, n)]
+    small = [(f, p) for p in PLACES for f in SAME_FORMATS]
+    tri = [(f, p) for p in PLACES
+           for f in (TRI_FORMATS_QUICK if ctx.quick else TRI_FORMATS)]
+    xf = XFORMATS[:3] if ctx.quick else XFORMATS
+    xp = [(f, p) for p in PLACES for f in xf]
+    fam = []        # (layout, assign, kinds, configs, kernel every)
+    # every pair of declarations, one in each map, both orders of the maps
+    ke = 41 if ctx.quick else 211
+    for lay, a in multi_family(PAIRS, 2):
+        fam.append((lay, a, KINDS_MIXED, main if ctx.quick else pc, ke))
+    # three declarations over a smaller format alphabet, 2 + 1 and 1 + 2
+    for lay, a in multi_family(tri, 3):
+        fam.append((lay, a, KINDS_MIXED, main, 97 if ctx.quick else 499))
+    # the other CPU configurations
+    if ctx.quick:
+        for lay, a in multi_family(small, 2):
+            fam.append((lay, a, KINDS_MIXED, others, 0))
+    # byte-order-prefixed formats next to each other and to plain ones
+    for x in xp:
+        for y in xp + small:
+            if valid((x, y)):
+                for a in assignments((x, y)):
+                    fam.append(((x, y), a, KINDS_MIXED, main, 29))
+    # a map without any variable next to a map with one or two
+    for k in (1, 2):
+        for lay in layouts_with_prefix(k, (), PAIRS if k == 1 else small):
+            for a in ((0,) * k, (1,) * k):
+                fam.append((lay, a, KINDS_MIXED, main, 13))
+    # two maps of the same class
+    if SAME_KIND:
+        for lay, a in multi_family(small, 2):
+            fam.append((lay, a, KINDS_SAME, [(2, 2, [(0, 1, 0)])], 0))
+    items = []
+    fam.sort(key=lambda f: f[4])
+    for ke, grp in itertools.groupby(fam, key=lambda f: f[4]):
+        grp = [g[:4] for g in grp]
+        step = 24 if len(grp[0][3]) * len(grp[0][3][0][2]) > 1 else 60
+        for i in range(0, len(grp), step):
+            items.append(("multi", 2, (i,), ctx.seed, ke, grp[i:i + step]))
+    return items
 
 
 def run(ctx):
@@ -724,6 +1273,7 @@ def run(ctx):
         for p in prefixes(k):
             items.append(("percpu", k, p, ctx.seed, 23 if ctx.quick else 211,
                           pc))
+    items += multi_items(ctx, pc)
     # largest items first so that the pool stays busy
     items.sort(key=lambda it: (-it[1], it[2]))
     res = core.pmap(ctx, work, items, chunk=1)
@@ -771,7 +1321,12 @@ def replay(ctx, rep):
     res.nocap = True
     c = rep["case"]
     layout = tuple(tuple(p) for p in c["layout"])
-    if c["kind"] == "array":
+    if c["kind"] == "multi":
+        st, obs = run_multi(layout, tuple(c["assign"]), tuple(c["kinds"]),
+                            rep.get("seed", ctx.seed), "sim",
+                            c["n_possible"], c["n_online"],
+                            tuple(c["schedule"]), res)
+    elif c["kind"] == "array":
         st, obs = run_array(layout, rep.get("seed", ctx.seed), "sim", res,
                             variant=tuple(c.get("variant", ())))
     else:
